@@ -59,15 +59,19 @@ class Shadow:
         self.view: list[Tok] | None = None
         self.readonly = False
         self.idle = False
+        self.copy_check = None
+        self.expunged: list[int] = []
 
     def snapshot(self):
         return None if self.view is None else [(t.uid, None if t.flags is None else sorted(t.flags))
                                                for t in self.view]
 
-    def feed(self, label, responses, server_sorted) -> list[tuple]:
+    def feed(self, label, responses, server_sorted, ids_before=None) -> list[tuple]:
         """Process the responses to one label of this connection.
         server_sorted: the server's _sorted after the step (glass box) or None."""
         fails: list[tuple] = []
+        self.copy_check = None     # (cmd, sset, addressed uids, COPYUID sources) of a COPY/MOVE
+        self.expunged = []         # uids of the messages this answer reported expunged
         kind = label[0]
         c = label[2] if kind == 'cmd' else (kind,)
         name = c[0]
@@ -91,6 +95,10 @@ class Shadow:
         if self.view is None:
             return fails
         start_view = list(self.view)
+        # who the positions are (glass box: the server's list before this step), to name the
+        # messages an EXPUNGE removes even when the client was never told their UID
+        ids = list(ids_before) if ids_before is not None and len(ids_before) == len(self.view) \
+            else [t.uid for t in self.view]
         saw_expunge_after = [False] * len(responses)
         seen = False
         for i in range(len(responses) - 1, -1, -1):
@@ -109,13 +117,18 @@ class Shadow:
                     fails.append(('expunge_range', f'EXPUNGE {n} with {len(self.view)} messages',
                                   {'kind': 'expunge_range', 'n': n, 'count': len(self.view)}))
                 else:
+                    who = self.view[n - 1].uid if self.view[n - 1].uid is not None else ids[n - 1]
+                    if who is not None:
+                        self.expunged.append(who)
                     del self.view[n - 1]
+                    del ids[n - 1]
             elif k == 'exists':
                 n = r[1]
                 if n < len(self.view):
                     fails.append(('exists_shrinks', f'EXISTS {n} with {len(self.view)} messages',
                                   {'kind': 'exists_shrinks', 'n': n, 'count': len(self.view)}))
                 else:
+                    ids.extend(None for _ in range(n - len(self.view)))
                     self.view.extend(Tok() for _ in range(n - len(self.view)))
             elif k == 'fetch':
                 _, seq, uid, flags = r
@@ -143,6 +156,33 @@ class Shadow:
         if name == 'close' and ok:
             self.view = None
             return fails
+        # COPY / MOVE: the COPYUID code names the source messages the server acted on; they
+        # must be messages the client addressed (what it holds under those numbers / UIDs)
+        if name in ('copy', 'move') and ok:
+            _, sset, by_uid = c[:3]
+            pairs = None
+            for r in responses:
+                code = r[2] if r[0] == 'tagged' else (r[1] if r[0] == 'okcode' else None)
+                if code and code[0] == 'copyuid':
+                    pairs = code[1]
+            if pairs:
+                if by_uid:
+                    known = [t.uid for t in start_view if t.uid is not None]
+                    want_uids = None if any(t.uid is None for t in start_view) else \
+                        seq_denotes(sset, max(known) if known else 0) & set(known)
+                else:
+                    want = seq_denotes(sset, len(start_view))
+                    addressed = [t for i, t in enumerate(start_view, 1) if i in want]
+                    want_uids = None if any(t.uid is None for t in addressed) else \
+                        {t.uid for t in addressed}
+                if want_uids is not None:
+                    self.copy_check = (name, sset, want_uids, {a for a, _ in pairs})
+                    wrong = sorted({a for a, _ in pairs} - want_uids)
+                    if wrong:
+                        fails.append(('copy_target',
+                                      f'{name.upper()} {sset} acted on UID {wrong}; the client holds '
+                                      f'UID {sorted(want_uids)} under that set',
+                                      {'kind': 'wrong_message', 'cmd': name}))
         # a .SILENT STORE that succeeded: the client computes the new flags itself
         if name == 'store' and ok and c[5]:
             _, sset, by_uid, op, fl, _silent = c
